@@ -23,7 +23,9 @@ ASSUMPTIONS = [
 
 
 def bounds(tier):
-    return dict(triples=[t["name"] for t in kitgen.TRIPLES], fills=[0, 1], placeholder_lengths=[0, 1, 7], chain=[1, 2, 3],
+    return dict(triples=[t["name"] for t in kitgen.TRIPLES], fills=[0, 1] if tier == "quick" else [0, 1, 2],
+                placeholder_lengths=[0, 1, 7] if tier == "quick" else [0, 1, 2, 7, 15], chain=[1, 2, 3] if tier == "quick" else [1, 2, 3, 4],
+                overhang_word_sets=1 if tier == "quick" else 3,
                 vector_rotations="all n" if tier == "thorough" else "all n for fill 0 / placeholder 7, stride 5 otherwise",
                 product_rotations="all n" if tier == "thorough" else "stride 3 + structure window",
                 two_level="cidar, ecoflex, moclo: two cassettes from entries -> device" if tier == "thorough" else "cidar only")
@@ -38,6 +40,9 @@ def typed(cls, s):
     if not e.is_valid():
         return None
     return (str(e.overhang_start()), str(e.overhang_end()), str(e.target_sequence().seq))
+
+
+WORDSETS = [kitgen.CHAIN_WORDS, ["TTCA", "GGAC", "CATC", "AGCG", "CTAG"[::-1]], ["GCTT", "AATG", "TACT", "GGAG", "CGCT"]]
 
 
 def scenario_strings(t, fill, ph, k, variant=0):
@@ -55,7 +60,7 @@ def scenario_strings(t, fill, ph, k, variant=0):
         if vec is None or mod is None:
             return None
         return vec, [mod], [down + "TCTC" + mod[len("CGTCTC") + 1 + 4 + 4: len("CGTCTC") + 1 + 4 + 4 + 1] + o5 + tmpl + o3 + mod[len("CGTCTCN") + 8 + 1 + 4 + len(tmpl) + 4] + "GA"], V, Mc
-    words = kitgen.CHAIN_WORDS
+    words = WORDSETS[variant % len(WORDSETS)]
     ovs = words[: k + 1]
     outer = (kitgen.OUTER_WORDS[0], kitgen.OUTER_WORDS[1]) if t["outer"] == "adjacent" else None
     vec = kitgen.build_vector(V, ovs[0], ovs[k], fill=fill, ph_len=ph, outer=outer, variant=variant)
@@ -63,7 +68,7 @@ def scenario_strings(t, fill, ph, k, variant=0):
         return None
     mods, targets = [], []
     for i in range(k):
-        body = gen.word(fill + i, 5 + 9 * i, 2 + 3 * i, kitgen.ALL_SITES)
+        body = gen.word(fill + i + variant, 5 + 9 * i, 2 + 3 * i + variant, kitgen.ALL_SITES)
         m = kitgen.build_module(Mc, ovs[i], ovs[i + 1], body, variant=variant + i)
         if m is None:
             return None
@@ -74,7 +79,7 @@ def scenario_strings(t, fill, ph, k, variant=0):
 
 def check(st, scn):
     t = kitgen.triple(scn["triple"])
-    built = scenario_strings(t, scn["fill"], scn["ph"], scn["k"])
+    built = scenario_strings(t, scn["fill"], scn["ph"], scn["k"], scn.get("variant", 0))
     if built is None:
         st.filtered += 1
         return None
@@ -152,9 +157,10 @@ def check(st, scn):
 def units(tier):
     us = []
     for t in kitgen.TRIPLES:
-        for fill in (0, 1):
-            for ph in (0, 1, 7):
-                us.append(("single", (t["name"], fill, ph)))
+        for fill in ((0, 1) if tier == "quick" else (0, 1, 2)):
+            for ph in ((0, 1, 7) if tier == "quick" else (0, 1, 2, 7, 15)):
+                for variant in ((0,) if tier == "quick" else (0, 1, 2)):
+                    us.append(("single", (t["name"], fill, ph, variant)))
     us.append(("two-level", "cidar"))
     if tier == "thorough":
         us.append(("two-level", "ecoflex"))
@@ -166,10 +172,10 @@ def run_unit(unit, st, tier):
     kind, arg = unit
     if kind == "two-level":
         return unit_two_level(st, arg, tier)
-    name, fill, ph = arg
+    name, fill, ph, variant = arg
     t = kitgen.triple(name)
-    for k in (1, 2, 3):
-        base = dict(triple=name, fill=fill, ph=ph, k=k)
+    for k in ((1, 2, 3) if tier == "quick" else (1, 2, 3, 4)):
+        base = dict(triple=name, fill=fill, ph=ph, k=k, variant=variant)
         prod = check(st, base)
         st.scenario("level-ok" if prod else "level-none", None, calls=4)
         if prod is None:
@@ -180,7 +186,7 @@ def run_unit(unit, st, tier):
             st.nontrivial += 1
         if ph == 0:
             st.goal("empty-placeholder")
-        built = scenario_strings(t, fill, ph, k)
+        built = scenario_strings(t, fill, ph, k, variant)
         nv, npd = len(built[0]), len(prod)
         full = tier == "thorough" or (fill == 0 and ph == 7)
         for rv in (range(1, nv) if full else range(1, nv, 5)):
@@ -189,7 +195,7 @@ def run_unit(unit, st, tier):
             st.nontrivial += 1
         prots = range(1, npd) if tier == "thorough" else sorted(set(range(1, npd, 3)) | set(range(1, 12)) | set(range(max(1, npd - 12), npd)))
         for rp in prots:
-            check(st, dict(base, rot_product=rp, next_assembly=(rp % 7 == 1)))
+            check(st, dict(base, rot_product=rp, next_assembly=(tier == "thorough" or rp % 7 == 1)))
             st.scenario("product-rotated", None, calls=3)
             st.nontrivial += 1
             st.goal("product-rotated")
